@@ -3,6 +3,7 @@ import Tw.Proofs.Packet6Headers
 import Tw.Proofs.Packet6Write
 import Tw.Model.Packet7
 import Tw.Proofs.Packet7Headers
+import Tw.Proofs.Packet7Write
 
 /-!
 # C05 — packet encoding and decoding are mutually inverse
@@ -170,6 +171,24 @@ theorem v7_chunkHeaderVital_unpack_pack (v : ChunkHeaderVital) (hf : v.h.flags <
 theorem v7_chunkHeaderVital_pack_unpack (b0 b1 b2 : Nat) (h0 : b0 < 256) (h1 : b1 < 256) (h2 : b2 < 256) :
     Tw.Packet7.chunkHeaderVitalPack (Tw.Packet7.chunkHeaderVitalUnpackWarn b0 b1 b2).1 = some (b0, b1, b2) :=
   Tw.Packet7.chv_pack_unpack b0 b1 b2 h0 h1 h2
+
+/-- **0.7 whole-packet round trip.**  For every packet value satisfying `Tw.Packet7.Valid` (connless
+payload within the writer's limit; ack < 1024, num_chunks < 256, payload at most
+`MAX_PACKETSIZE - HEADER_SIZE`; close reason NUL-free and at most 127 bytes; response token of
+`Connect`/`Token` different from `TOKEN_NONE`, as the writer asserts) `Packet::write` into any buffer of at
+least `MAX_PACKETSIZE` bytes succeeds with at most `MAX_PACKETSIZE` bytes (519 for a token request), and
+`Packet::read` returns the same value with `Tw.Packet7.expectedWarnings`, irrespective of the
+compression branch. -/
+theorem v7_write_read_roundtrip (t : Tw.Huffman.Table) (hrt : Tw.Packet7.HuffmanRoundTrip t)
+    (p : Tw.Packet7.Packet) (hv : Tw.Packet7.Valid p) (cap scap : Nat)
+    (hcap : Tw.Gen.Packet7.MAX_PACKETSIZE ≤ cap) (hs : Tw.Gen.Packet7.MAX_PACKETSIZE ≤ scap) :
+    ∃ bs, Tw.Packet7.write t p cap = .ok bs ∧ bs.length ≤ Tw.Gen.Packet7.MAX_PACKETSIZE ∧
+      ∃ r, Tw.Packet7.read t bs (some scap) = .ok r ∧ r.pkt = p ∧ r.warns = Tw.Packet7.expectedWarnings p :=
+  Tw.Packet7.write_read_roundtrip t hrt p hv cap scap hcap hs
+
+-- non-vacuity: a token request (header token = TOKEN_NONE) is valid
+example : Tw.Packet7.Valid (.connected 0 Tw.Packet7.tokenNone (.control (.token ⟨1, 2, 3, 4⟩))) := by
+  refine ⟨by decide, by decide⟩
 
 -- non-vacuity: the D1 witness size 16 now round-trips without warning
 example : Tw.Packet7.chunkHeaderUnpackWarn 0x00 0x10 = ({ flags := 0, size := 16 }, []) := by decide
